@@ -1,8 +1,8 @@
 (* C12 - Runtime updates are coherent and reproducible from the dumped configuration.
    Only statements; proofs by `exact`.  Model: Model/Update.v (router manager, cluster manager, effective configuration,
    xDS endpoint assignment).  Gen/EndpointSrc.v is regenerated from /repo on every run. *)
-From Coq Require Import List String.
-From MV Require Import Model.Router Model.Update Proofs.Update Gen.EndpointSrc.
+From Coq Require Import List String ZArith.
+From MV Require Import Model.Router Model.Update Proofs.Update Gen.EndpointSrc Model.UpdateRes Proofs.UpdateRes Gen.ClusterSrc.
 Import ListNotations.
 Local Open Scope string_scope.
 
@@ -96,6 +96,47 @@ Theorem c12_endpoints_union_refuted_per_locality :
   option_map (fun c => map h_addr (cl_hosts c)) (mget "c" (st_clusters s')) = Some ["10.0.0.2:80"].
 Proof. exact endpoints_union_fails_per_locality. Qed.
 Print Assumptions c12_endpoints_union_refuted_per_locality.
+
+(* ---- the circuit-breaker resource manager across cluster updates (Model/UpdateRes.v).
+   What the translator read from UpdateClusterResourceManagerHandler: the updated cluster ADOPTS the old cluster's manager
+   object and the new thresholds are written into it, so requests in flight (which hold the old snapshot) and the live
+   cluster count in ONE object. *)
+Theorem c12_resource_manager_source_shape : ClusterSrc_translator_ok = true /\ resource_manager_adopted = true.
+Proof. split; exact (eq_refl _). Qed.
+Print Assumptions c12_resource_manager_source_shape.
+
+(* for every history of updates (identical or changed thresholds), hosts updates, removals, acquisitions through the live
+   snapshot and releases through the snapshot HELD: every manager's count is the number of requests in flight that counted
+   themselves in it *)
+Theorem c12_resource_counts_are_holders : forall ops i r,
+  nth_error (rs_mgrs (rrun resource_manager_adopted ops)) i = Some r ->
+  r_cur r = Z.of_nat (cnt i (rs_held (rrun resource_manager_adopted ops))).
+Proof. exact counts_are_holders. Qed.
+Print Assumptions c12_resource_counts_are_holders.
+
+(* hence, once every holder has released, every counter is 0 and the live manager IS the manager of a cluster freshly
+   built from the stored configuration: CanCreate answers alike *)
+Theorem c12_resource_released_means_fresh : forall ops,
+  rs_held (rrun resource_manager_adopted ops) = [] ->
+  (forall i r, nth_error (rs_mgrs (rrun resource_manager_adopted ops)) i = Some r -> r_cur r = 0%Z) /\
+  live_resource (rrun resource_manager_adopted ops) = fresh_resource (rrun resource_manager_adopted ops).
+Proof. exact released_means_fresh. Qed.
+Print Assumptions c12_resource_released_means_fresh.
+
+Theorem c12_resource_can_create_as_fresh : forall ops, rs_held (rrun resource_manager_adopted ops) = [] ->
+  option_map can_create (live_resource (rrun resource_manager_adopted ops)) =
+  option_map can_create (fresh_resource (rrun resource_manager_adopted ops)).
+Proof. exact released_can_create. Qed.
+Print Assumptions c12_resource_can_create_as_fresh.
+
+(* the copy-the-counters variant is refuted: acquire, update with the identical threshold, release -> the live count is
+   stuck at 1 and the live cluster refuses what a fresh start serves *)
+Theorem c12_resource_copy_variant_refuted :
+  let s := rrun false [RUpdate 1; RAcquire; RUpdate 1; RRelease 0] in
+  rs_held s = [] /\ option_map r_cur (live_resource s) = Some 1%Z /\
+  option_map can_create (live_resource s) = Some false /\ option_map can_create (fresh_resource s) = Some true.
+Proof. exact copy_variant_leaks. Qed.
+Print Assumptions c12_resource_copy_variant_refuted.
 
 (* requests concurrent with updates: a lookup reads the wrapper's pointer, any events (updates, route additions and
    removals, other threads' lookups) happen, then it evaluates on the object it read.  Its answer is the answer of the
